@@ -53,6 +53,11 @@ def check_c13(ctx):
     cov["guided_configurations"] = guided
     from . import design
     cov["design_level_generator_model"] = design.gen_twolevel(ctx)
+    try:        # diagnostic, never a violation and never breaks the check
+        sub = [t for t in traces if t["p"]["period"] <= (8 if q else 12) and t["N"] <= (24 if q else 60)]
+        cov["conformance_drift"] = gen_drift_twolevel(ctx, sub)
+    except Exception as ex:
+        cov["conformance_drift"] = {"status": "diagnostic could not be completed", "error": f"{type(ex).__name__}: {ex}"[:400]}
     return viols, cov, ["GW closed form (GWForm.tla), tied to the exhaustive ExecOpt search by C05"]
 
 
@@ -137,6 +142,18 @@ def gen_drift(ctx, nmax):
     drift = [fw.describe(t) for t, v in zip(traces, verdicts) if any(c == "GEN.drift" for c, _, _ in v["viol"])]
     return {"model": "GenBinomialCore (Multistage, all splits and trajectories; Revolve, 3 cost vectors)",
             "traces": len(traces), "drifting": len(drift), "examples": drift[:5]}
+
+
+def gen_drift_twolevel(ctx, traces):
+    """Implementation traces against the TwoLevel generator model (diagnostic only)."""
+    from . import c10
+    probes = [t for t in record.record_many([c for c in c10.probe_traces(ctx.tier) if c["cls"] == "TwoLevel"])
+              if "machinery" not in t]          # a finalize(k) probe at every position of the canonical call sequence
+    traces = list(traces) + probes
+    verdicts = fw.validate(ctx, traces, module="TraceGenTwoLevel", tag="gtl")
+    drift = [fw.describe(t) for t, v in zip(traces, verdicts) if any(c == "GEN.drift" for c, _, _ in v["viol"])]
+    return {"model": "GenTwoLevelCore (any Bellman-optimal advance, the same one every time; finalize as the base class)",
+            "traces": len(traces), "finalize_probe_traces": len(probes), "drifting": len(drift), "examples": drift[:5]}
 
 
 def gen_drift_mixed(ctx, nmax):
